@@ -580,6 +580,8 @@ impl ContinuityStreamCache {
         const MAX_BACKSCAN_EVENTS: usize = 10_000;
 
         let mut backscan_bytes = INITIAL_BACKSCAN_BYTES;
+        #[cfg(rip_verif)]
+        rip_kernel::verif::point("scan.enter", "cache.last_message_backscan");
         loop {
             #[cfg(rip_verif)]
             rip_kernel::verif::point("scan.iter", "cache.last_message_backscan");
@@ -778,6 +780,8 @@ impl ContinuityStreamCache {
         // Start small and expand if the last JSONL line is larger than the initial tail window.
         let mut max_bytes: usize = REVERSE_SCAN_CHUNK_BYTES * 2;
         let max_cap: usize = 4 * 1024 * 1024;
+        #[cfg(rip_verif)]
+        rip_kernel::verif::point("scan.enter", "cache.last_seq");
         loop {
             #[cfg(rip_verif)]
             rip_kernel::verif::point("scan.iter", "cache.last_seq");
